@@ -336,6 +336,7 @@ func (tree *ParserT) parseStatement(exec bool) error {
 					return err
 				}
 				appendToParam(tree, value...)
+				tree.statement.canHaveZeroLenStr = true // %() is an empty string like '' and ""
 			default:
 				appendToParam(tree, r)
 			}
